@@ -32,7 +32,7 @@ ENGINE = "T"
 RULE = (
     "run i = shared tree + 2-4 threads x 1-3 validation calls + schedule policy, all from Random(f'{VERIF_SEED}:C14:{i}'); "
     "real threads run under a baton-passing scheduler whose pre-emption points are the call/line/return (10% of thorough "
-    "runs: every opcode) trace events inside /repo/statham frames; policies: uniform switch probability, write-site "
+    "runs: every opcode) trace events inside /repo/statham frames; policies: uniform switch probability, early-burst, write-site "
     "biased, PCT priorities with d change points. Oracle: every call returns the same (verdict, normalised result) as "
     "when run alone on a fresh build; the shared tree's snapshot and equality are unchanged afterwards; inputs "
     "unchanged. Non-trivial run: >=1 context switch at which the pre-empted and the resumed thread both have a frame "
@@ -119,6 +119,8 @@ def make_policy(desc, rng):
         return sched.Policy("uniform", rng, p=desc["p"])
     if kind == "sites":
         return sched.Policy("sites", rng, p=desc["p"], p_site=desc["p_site"], sites=_sites())
+    if kind == "burst":
+        return sched.Policy("burst", rng, p=desc["p"], p_early=desc["p_early"], k=desc["k"])
     if kind == "pct":
         prio = {int(k): v for k, v in desc["prio"].items()}
         return sched.Policy("pct", rng, prio=prio, change_points=set(desc["change_points"]))
@@ -133,15 +135,60 @@ def make_policy(desc, rng):
 def gen_case(rng):
     perm = gen_perm(rng)
     install_validator_order(perm)
-    force = ("Class",) + tuple(
-        rng.sample(
-            ["shared", "pattern_props", "explicit_required", "tuple_items", "AnyOf", "OneOf", "AllOf", "untyped_props", "inherit", "dependencies", "additional"],
-            3,
+    hot = rng.random() < 0.5
+    if hot:
+        # "hot shared model": one class with many stateful property kinds that
+        # every thread hammers, so that pre-emptions land inside in-flight
+        # shared state rather than in unrelated sub-trees
+        force = ("Class", "String", "Array", "formats", "tuple_items") + tuple(
+            rng.sample(["inherit", "pattern_props", "defaults", "AnyOf", "untyped_props", "renames", "additional"], 2)
         )
-    )
-    world, swarm = gen.gen_world(rng, force=force)
+        swarm = gen.Swarm(rng, force=force, forbid=("Nothing",))
+        swarm.fmt_p = 0.5
+        swarm.tuple_p = 0.6
+        swarm.max_props = rng.choice([3, 4, 6])
+        swarm.max_depth = rng.choice([2, 3])
+        swarm.n_classes = rng.choice([2, 3])
+        wgen = gen.WorldGen(rng, swarm)
+        world = wgen.generate()
+        # inject property kinds around which shared state tends to live
+        target = max(world["classes"], key=lambda e: len(e["props"]))
+        # injected sub-elements must not refer to classes (a later class or
+        # the target itself would make the declaration cyclic)
+        wgen = gen.WorldGen(rng, swarm)
+        menu = [
+            ("fmt", {"k": "String", "kw": {"format": rng.choice(["uuid", "date-time"])}}),
+            ("tup", {"k": "Array", "kw": {"items": [wgen.element(2), wgen.element(2)], "additionalItems": rng.choice([True, False])}}),
+            ("lst", {"k": "Array", "kw": {"items": {"k": "String", "kw": {"format": "uuid"}}}}),
+            ("x_all", {"k": "AllOf", "els": [wgen.element(2), wgen.element(2)], "kw": {}}),
+            ("any", {"k": "AnyOf", "els": [wgen.element(2), {"k": "String", "kw": {"format": "date-time"}}], "kw": {}}),
+        ]
+        for attr, spec in rng.sample(menu, rng.randint(1, 3)):
+            target["props"][attr] = {"el": spec, "required": rng.random() < 0.3, "source": None}
+        if rng.random() < 0.4:
+            target["kw"].setdefault("patternProperties", {})["^x"] = wgen.element(2)
+        root_kind = rng.random()
+        if root_kind < 0.5:
+            world["root"] = {"k": "Class", "id": target["id"]}
+        elif root_kind < 0.7:
+            world["root"] = {"k": "Array", "kw": {"items": {"k": "Class", "id": target["id"]}}}
+    else:
+        force = ("Class",) + (("inherit",) if rng.random() < 0.6 else ()) + tuple(
+            rng.sample(
+                ["shared", "pattern_props", "explicit_required", "tuple_items", "AnyOf", "OneOf", "AllOf", "untyped_props", "inherit", "dependencies", "additional"],
+                3,
+            )
+        )
+        world, swarm = gen.gen_world(rng, force=force)
+    if world["classes"] and rng.random() < 0.5:
+        # make sure some subclass exists: inheritance is where model classes
+        # share the most state
+        wg = gen.WorldGen(rng, swarm)
+        wg.world = world
+        wg.new_class(1, rng.choice(world["classes"])["id"])
     scratch = build(world)
     nodes = live_nodes(scratch)
+    has_base = {e["id"] for e in world["classes"] if e.get("base")}
     weights = []
     for path, node in nodes:
         w = 1
@@ -149,10 +196,23 @@ def gen_case(rng):
             w = 8
         elif path[0][0] in ("class", "shared") and len(path) == 1:
             w = 5
+            if path[0][0] == "class" and path[0][1] in has_base:
+                w = 12
         weights.append(w)
     n_threads = rng.choice([2, 2, 3, 3, 4])
-    same_target = rng.random() < 0.6
+    same_target = rng.random() < (0.9 if hot else 0.6)
     shared_path = rng.choices(nodes, weights)[0]
+    if hot:
+        # the class with the most properties
+        best = max(
+            (n for n in nodes if len(n[0]) == 1 and n[0][0][0] == "class"),
+            key=lambda n: len(n[1].properties or {}),
+            default=None,
+        )
+        if best is not None and rng.random() < 0.8:
+            shared_path = best
+    p_again = rng.choice([0.0, 0.25, 0.4])
+    earlier = []
     shared_value = None
     if rng.random() < 0.15:
         shared_value = gen.gen_value(rng, shared_path[1])
@@ -161,6 +221,10 @@ def gen_case(rng):
         calls = []
         for _ in range(rng.choice([1, 1, 2, 3])):
             path, node = shared_path if same_target and rng.random() < 0.8 else rng.choices(nodes, weights)[0]
+            if earlier and rng.random() < p_again:
+                # the same value validated again (by this or another thread)
+                calls.append(copy.deepcopy(rng.choice(earlier)))
+                continue
             if rng.random() < 0.05:
                 arg = {"np": 1}
             elif shared_value is not None and path == shared_path[0]:
@@ -175,11 +239,19 @@ def gen_case(rng):
                     val = gen.gen_value(rng, node)
                 arg = {"v": val}
             calls.append({"path": path, "arg": arg})
+            earlier.append({"path": path, "arg": arg})
         threads.append(calls)
     # schedule policy
     roll = rng.random()
-    if roll < 0.35:
+    if roll < 0.25:
         policy = {"kind": "uniform", "p": rng.choice([0.002, 0.01, 0.05, 0.2])}
+    elif roll < 0.45:
+        policy = {
+            "kind": "burst",
+            "p": rng.choice([0.0, 0.002, 0.01]),
+            "p_early": rng.choice([0.05, 0.15, 0.4]),
+            "k": rng.choice([60, 200, 600, 1500]),
+        }
     elif roll < 0.7:
         policy = {"kind": "sites", "p": rng.choice([0.0, 0.005, 0.02]), "p_site": rng.choice([0.3, 0.6, 0.9])}
     else:
@@ -202,6 +274,7 @@ def gen_case(rng):
         "policy": policy,
         "policy_seed": rng.getrandbits(48),
         "swarm": swarm.describe(),
+        "hot": hot,
     }
     # execute once under the policy to obtain the explicit schedule
     sch = sched.Scheduler(
@@ -238,13 +311,17 @@ def exec_case(case, log, stats):
             verdict, result, _ = attempt(live_resolve(fresh, call["path"]), _value(call["arg"]))
             ref_calls.append((verdict, norm(result) if verdict == "accept" else None))
         reference.append(ref_calls)
+    # The shared tree must be *cold* when the threads start (first-use paths
+    # under concurrency are part of the space), so the "before" observation is
+    # taken from two other builds of the same world, never from `built`.
     built = build(world)
     fresh0 = build(world)
-    snap0 = snapshot(built)
+    fresh1 = build(world)
+    snap0 = snapshot(fresh1)
     if snapshot(fresh0) != snap0:
         stats.inc("degenerate_world")
         return None
-    eq0 = equal_both_ways(built, fresh0)
+    eq0 = equal_both_ways(fresh1, fresh0)
     sch = sched.Scheduler(
         len(case["threads"]),
         segments=case["segments"],
@@ -260,6 +337,8 @@ def exec_case(case, log, stats):
     stats.inc("policy:" + case.get("policy", {}).get("kind", "replay"))
     if case.get("opcodes"):
         stats.inc("opcode_granularity_runs")
+    if case.get("hot"):
+        stats.inc("hot_shared_model_runs")
     if sch.capped:
         stats.inc("step_cap_hit")
     if sch.overlaps:
